@@ -176,7 +176,8 @@ class WMTSServer(Server):
                 # the limit of the layer and the limit of the whole request both apply
                 return load_limited_to_all(
                     result['layers'][tile_layer.name].get('limited_to'),
-                    result.get('limited_to'))
+                    result.get('limited_to'),
+                    srs=tile_layer.grid.srs)
         raise RequestError('forbidden', status=403)
 
     def authorized_tile_layers(self, env):
